@@ -1,0 +1,14 @@
+//go:build verif
+
+package search
+
+// This file is only compiled with the `verif` build tag. It exposes a digest
+// of the persistent search state to the verification harness in /verif and
+// adds no behaviour.
+
+// VerifDigest combines the digests of the transposition table, the move
+// ordering stores and the generation counter: the state a search leaves
+// behind for subsequent searches.
+func (s *Search) VerifDigest() (tt, ranker uint64, gen int) {
+	return s.tt.VerifDigest(), s.ranker.VerifDigest(), int(s.gen)
+}
